@@ -11,6 +11,13 @@ stdout: last line = {"jobs": [{"n_atoms": N, "box_seen": [...], "index_sets": {.
                                "variants": [{"maxabs": m, "obs": {name: value}}]}]}
 Observable values are lists of floats (float32/float64 widened exactly), ints or strings; an exception inside an
 observable is reported as {"err": class name}.
+
+MULTI-FRAME jobs ("multi": {"n_frames": m, "boxes": [3x3 per frame] | null}): every variant becomes ONE m-frame
+Trajectory in which EACH FRAME carries its own transformation of the same structure (rigid: variant["per_frame"][f] =
+{"q","t"}; lattice: shifts drawn from RandomState(seed + 7919 f) in the cell of frame f, "whole_per_frame"[f]; jitter:
+RandomState(seed + 7919 f); ref: the untransformed structure in every frame) and, for periodic jobs, its own cell.
+Each observable is computed by ONE call on the m-frame trajectory and split by frame; the answer has
+"frames": [per-frame result in the single-frame layout].
 """
 import json
 import os
@@ -127,11 +134,141 @@ def observe(md, make_t, make_ref, idx, job, names):
     return out
 
 
+
+
+def observe_multi(md, make_t, make_ref, idx, job, names, m):
+    """One call per observable on the m-frame trajectory; returns {name: [value of frame 0, ..., value of frame m-1]}."""
+    out = {}
+    cutoff = job.get("cutoff", 0.5)
+    for name in names:
+        t = make_t()
+        periodic = t.unitcell_vectors is not None
+        try:
+            if name == "distances":
+                v = [fl(r) for r in md.compute_distances(t, idx["pairs"], periodic=periodic)]
+            elif name == "displacements_norm":
+                d = md.compute_displacements(t, idx["pairs"], periodic=periodic)
+                v = [fl(r) for r in np.sqrt((d.astype(np.float64) ** 2).sum(-1))]
+            elif name == "angles":
+                v = [fl(r) for r in md.compute_angles(t, idx["triplets"], periodic=periodic)]
+            elif name == "dihedrals":
+                v = [fl(r) for r in md.compute_dihedrals(t, idx["quartets"], periodic=periodic)]
+            elif name == "rmsd":
+                v = []
+                for f in range(m):
+                    v.append(fl(md.rmsd(make_t(), make_ref(), frame=f)[f:f + 1]))
+            elif name == "rg":
+                v = [fl(r) for r in md.compute_rg(t)]
+            elif name == "gyration_moments":
+                v = [fl(r) for r in md.principal_moments(t)]
+            elif name == "contacts":
+                d, prs = md.compute_contacts(t, contacts="all", scheme="closest-heavy", periodic=periodic)
+                v = [{"d": fl(r), "pairs": [int(x) for x in prs.ravel()][:2000]} for r in d]
+            elif name == "wernet_nilsson":
+                v = [sorted([int(a), int(b), int(c)] for a, b, c in h) for h in md.wernet_nilsson(t, periodic=periodic)]
+            elif name == "kabsch_sander":
+                v = []
+                for mat in md.kabsch_sander(t):
+                    mc = mat.tocoo()
+                    v.append(sorted([int(i), int(j), float(e)] for i, j, e in zip(mc.row, mc.col, mc.data)))
+            elif name == "dssp":
+                v = ["".join(r) for r in md.compute_dssp(t, simplified=False)]
+            elif name == "neighbors":
+                v = [[int(x) for x in r] for r in md.compute_neighbors(t, cutoff, idx["query"], periodic=periodic)]
+            elif name == "neighborlist":
+                v = []
+                for f in range(m):
+                    v.append([sorted(int(x) for x in l) for l in md.compute_neighborlist(t, cutoff, frame=f, periodic=periodic)])
+            elif name == "drid":
+                v = [fl(r) for r in md.compute_drid(t)]
+            elif name == "sasa":
+                v = [fl(r) for r in md.shrake_rupley(t, n_sphere_points=job.get("n_sphere_points", 480))]
+            else:
+                raise RuntimeError("unknown observable " + name)
+            if len(v) != m:
+                raise RuntimeError("observable %s returned %d rows for %d frames" % (name, len(v), m))
+            out[name] = v
+        except Exception as e:  # reported, compared as an error class
+            out[name] = [{"err": type(e).__name__, "msg": str(e)[:200]}] * m
+    return out
+
+
+def multi_job(md, job):
+    top, xyz0 = load_structure(md, job)
+    n = len(xyz0)
+    m = int(job["multi"]["n_frames"])
+    rng = np.random.RandomState(job.get("seed", 0))
+    idx = index_sets(n, rng, top)
+    ref0 = xyz0 + rng.normal(scale=0.05, size=xyz0.shape)
+    if job.get("snap"):
+        ref0 = np.round(ref0 * 1024.0) / 1024.0
+    boxes = job["multi"].get("boxes")
+    boxes = None if boxes is None else np.array(boxes, dtype=np.float32)
+
+    def make(xs):
+        t = md.Trajectory(np.array(xs, dtype=np.float64).astype(np.float32), top)
+        if boxes is not None:
+            t.unitcell_vectors = boxes
+        return t
+    seen = None
+    if boxes is not None:
+        seen = np.asarray(make([xyz0] * m).unitcell_vectors, dtype=np.float64)
+    per_variant = []
+    for v in job["variants"]:
+        kind = v["kind"]
+        xs, xrs, extras = [], [], []
+        for f in range(m):
+            extra = {}
+            if kind == "ref":
+                x, xr = xyz0, ref0
+            elif kind == "jitter":
+                r2 = np.random.RandomState(v["seed"] + 7919 * f)
+                x = xyz0 + r2.uniform(-v["eps"], v["eps"], size=xyz0.shape)
+                xr = ref0 + r2.uniform(-v["eps"], v["eps"], size=xyz0.shape)
+            elif kind == "rigid":
+                pf = v["per_frame"][f]
+                R = quat_matrix(pf["q"])
+                tv = np.array(pf["t"], dtype=np.float64)
+                x = xyz0 @ R.T + tv
+                xr = ref0 @ R.T + tv
+            elif kind == "lattice":
+                r2 = np.random.RandomState(v["seed"] + 7919 * f)
+                sh = r2.randint(-v["range"], v["range"] + 1, size=(n, 3))
+                w = np.array((v.get("whole_per_frame") or [[0, 0, 0]] * m)[f], dtype=np.float64)
+                x = xyz0 + sh.astype(np.float64) @ seen[f] + w
+                xr = ref0 + w
+                fr = x @ np.linalg.inv(seen[f])
+                extra["outside"] = [int(i) for i in np.nonzero(np.any((fr < -1e-9) | (fr >= 1 + 1e-9), axis=1))[0]]
+            else:
+                raise RuntimeError("unknown variant " + kind)
+            xs.append(x)
+            xrs.append(xr)
+            extras.append(extra)
+        obs = observe_multi(md, (lambda xs=xs: make(xs)), (lambda xrs=xrs: make(xrs)), idx, job, job["observables"], m)
+        per_variant.append((xs, extras, obs))
+    frames = []
+    for f in range(m):
+        variants = []
+        for xs, extras, obs in per_variant:
+            x32 = xs[f].astype(np.float32).astype(np.float64)
+            variants.append(dict(extras[f], maxabs=float(np.abs(x32).max()), exact=bool(np.all(x32 == xs[f])),
+                                 obs={name: obs[name][f] for name in job["observables"]}))
+        frames.append({"n_atoms": n, "box_seen": None if seen is None else fl(seen[f]),
+                       "index_sets": {k: np.asarray(a).tolist() for k, a in idx.items()},
+                       "xyz0": fl(xyz0.astype(np.float32)), "ref0": fl(ref0.astype(np.float32)),
+                       "heavy": [int(a.index) for a in top.atoms if a.element.symbol != "H"],
+                       "xyz_grid": None, "variants": variants})
+    return {"frames": frames}
+
+
 def main():
     payload = json.load(sys.stdin)
     import mdtraj as md
     res = []
     for job in payload["jobs"]:
+        if job.get("multi"):
+            res.append(multi_job(md, job))
+            continue
         top, xyz0 = load_structure(md, job)
         n = len(xyz0)
         rng = np.random.RandomState(job.get("seed", 0))
